@@ -63,6 +63,10 @@ W4Ops == Call("load", W4Keys) \cup {Simple("hot_reload")}
          \cup {NotifyOp(b) : b \in {{FileE("c","y")}, {FileE("b","x")}, {FileE("a","x")}, {FileE("c","y"), FileE("b","x")}}}
          \cup {EditOp(F("c","y"), CRef("b")), EditOp(F("c","y"), CRef("a")), EditOp(F("b","x"), CVal(2)), EditOp(F("a","x"), CVal(3))}
 
+(* W4d: the shortest histories that re-wire and edit in one batch (D8) ------- *)
+W4dOps == Call("load", {K("L0","b"), K("N0","c")}) \cup {Simple("hot_reload"), NotifyOp({FileE("c","y"), FileE("b","x")}),
+          EditOp(F("c","y"), CRef("b")), EditOp(F("b","x"), CVal(2))}
+
 (* W5: directories (C11 through the cache, C05 for directory changes) ------- *)
 W5Keys == {K("DL0",""), K("DL0","d"), K("DL1","d"), K("RL0",""), K("RL0","d"), K("RL0","d.e"),
            K("DL0","d.e"), K("L0","d.a"), K("L1","d.a")}
@@ -93,6 +97,20 @@ W7Arms == {[op |-> "arm", what |-> "read", at |-> n, kind |-> kd] : n \in 0..3, 
           \cup {[op |-> "arm", what |-> w, at |-> n, kind |-> "other"] : w \in {"loader", "panic"}, n \in 0..1}
 W7Ops == Call("load", {K("N1","d"), K("N0","c")}) \cup W7Arms \cup {Simple("disarm")}
 W7ROps == W7Ops \cup {Simple("hot_reload"), NotifyOp({FileE("b","x"), FileE("a","y")}), EditOp(F("b","x"), CVal(2)), EditOp(F("a","y"), CVal(3))}
+
+(* W7c: faults during reloads of a chain (the pass order is forced) ----------- *)
+W7cKeys == {K("L1","a"), K("N0","c"), K("N1","d")}
+W7cScripts == (K("N0","c") :> <<ILoad("L1","a",TRUE), IRead("b","x")>>) @@ (K("N1","d") :> <<ILoad("N0","c",TRUE)>>)
+W7cArms == {[op |-> "arm", what |-> "read", at |-> n, kind |-> kd] : n \in 0..2, kd \in {"notfound", "other"}}
+           \cup {[op |-> "arm", what |-> w, at |-> 0, kind |-> "other"] : w \in {"loader", "panic"}}
+W7cOps == Call("load", {K("N1","d")}) \cup W7cArms \cup {Simple("disarm"), Simple("hot_reload"),
+          NotifyOp({FileE("b","x"), FileE("a","y")}), NotifyOp({FileE("a","y")}), EditOp(F("b","x"), CVal(2)), EditOp(F("a","y"), CVal(3)),
+          EditOp(F("a","y"), CBad)}
+
+(* W6d: the shortest histories around remove / clear / get_or_insert --------- *)
+W6dOps == Call("load", {K("L0","a")}) \cup Call("remove", {K("L0","a")})
+          \cup {Simple("clear"), Simple("hot_reload"), NotifyOp({FileE("a","x")}), EditOp(F("a","x"), CVal(2)),
+                [op |-> "goi", k |-> K("L0","a"), n |-> 7]}
 
 (* W8: enhance_hot_reloading ('static cache) --------------------------------- *)
 W8Ops == Call("load", {K("N2","d"), K("L0","a")}) \cup {Simple("enhance"), Simple("hot_reload")}
